@@ -14,5 +14,6 @@ import (
 )
 
 func (e *ExpFromZeroFunction) Spec_Evaluate(value float64) float64 {
-	return e.Multiplier*math.Exp(e.Alpha*value) - e.Multiplier
+	// C17, C19: multiplier x (e^(alpha x value) - 1), evaluated without cancelling the leading 1
+	return e.Multiplier * math.Expm1(e.Alpha*value)
 }
